@@ -2025,7 +2025,22 @@ func calcDescriptorVBIDataLength(d *DescriptorVBIData) uint8 {
 	if d == nil {
 		return 0
 	}
-	return uint8(3 * len(d.Services))
+	// must mirror writeDescriptorVBIData: service id, length, then one byte per line (or one reserved byte)
+	ret := 0
+	for _, item := range d.Services {
+		ret += 2
+		if item.DataServiceID == VBIDataServiceIDClosedCaptioning ||
+			item.DataServiceID == VBIDataServiceIDEBUTeletext ||
+			item.DataServiceID == VBIDataServiceIDInvertedTeletext ||
+			item.DataServiceID == VBIDataServiceIDMonochrome442Samples ||
+			item.DataServiceID == VBIDataServiceIDVPS ||
+			item.DataServiceID == VBIDataServiceIDWSS {
+			ret += len(item.Descriptors)
+		} else {
+			ret++
+		}
+	}
+	return uint8(ret)
 }
 
 func writeDescriptorVBIData(w *astikit.BitsWriter, d *DescriptorVBIData) error {
